@@ -47,6 +47,14 @@ def lots_for(gen, t):
                             continue
                         if admissible(lx, ly, bmin, bmx, bmy, gen, need_count=False):
                             lots.append({"lx": lx, "ly": ly, "bmin": bmin, "bmx": bmx, "bmy": bmy})
+    if gen == "rect":
+        # strips: the shorter side is below the largest spacing (a single row at the first trial spacings); rectangular() accepts them
+        for long_side in (rng[-1], rng[-1] + 7):
+            for short in (1, 2, 3, 5):
+                for bmin, bmx in ((1, 4), (2, 6), (3, 7), (1, 3)):
+                    if short < bmx and long_side // bmx + 1 >= 3:
+                        lots.append({"lx": long_side, "ly": short, "bmin": bmin, "bmx": bmx, "bmy": bmin})
+                        lots.append({"lx": short, "ly": long_side, "bmin": bmin, "bmx": bmx, "bmy": bmin})
     return lots
 
 
